@@ -12,6 +12,7 @@ use elements::{
 use serde_json::json;
 
 use crate::engine::*;
+use crate::gen::ext_g1 as xg;
 use crate::gen::{self, mutate, TxOpts};
 use crate::refimpl::enc;
 use crate::{ensure, ensure_eq, fail};
@@ -27,6 +28,85 @@ impl io::Write for CountingWriter {
     }
 }
 
+/// reader that hands out at most `k` bytes per `read` call (a legitimate `io::Read`)
+struct ChunkReader<'a> {
+    data: &'a [u8],
+    pos: usize,
+    k: usize,
+}
+impl io::Read for ChunkReader<'_> {
+    fn read(&mut self, buf: &mut [u8]) -> io::Result<usize> {
+        let n = buf.len().min(self.k).min(self.data.len() - self.pos);
+        buf[..n].copy_from_slice(&self.data[self.pos..self.pos + n]);
+        self.pos += n;
+        Ok(n)
+    }
+}
+/// writer that accepts at most `k` bytes per `write` call (a legitimate `io::Write`)
+struct ShortWriter {
+    out: Vec<u8>,
+    k: usize,
+}
+impl io::Write for ShortWriter {
+    fn write(&mut self, b: &[u8]) -> io::Result<usize> {
+        let n = b.len().min(self.k);
+        self.out.extend_from_slice(&b[..n]);
+        Ok(n)
+    }
+    fn flush(&mut self) -> io::Result<()> {
+        Ok(())
+    }
+}
+
+/// The codec is generic over `io::Read` / `io::Write`: the same bytes must come out of / go into
+/// (a) a reader that returns short reads, (b) one reader holding two encodings back to back,
+/// (c) a writer that takes short writes. `bytes` is the encoding of `v` already checked.
+fn io_variants<T: Encodable + Decodable + PartialEq + Debug>(name: &str, v: &T, bytes: &[u8]) -> R {
+    let len = bytes.len();
+    let k = if len > 20_000 { [7usize, 64, 4099][len % 3] } else { [1usize, 7, 64][len % 3] };
+    // (a) short reads
+    let mut rd = ChunkReader { data: bytes, pos: 0, k };
+    let r = guard::guard("consensus_decode(short reads)", len, || T::consensus_decode(&mut rd))?;
+    match r {
+        Ok(b) => {
+            ensure!(&b == v, "{}: decoding from a reader that returns at most {} bytes per read gives a different value\n v={:?}\n back={:?}", name, k, v, b);
+            ensure!(rd.pos == len, "{}: decoding from a reader with short reads consumed {} of {} bytes", name, rd.pos, len);
+        }
+        Err(e) => fail!("{}: decoding its own encoding from a reader that returns at most {} bytes per read failed: {} ({} bytes)", name, k, e, len),
+    }
+    // (b) two values one after the other from the same reader
+    if len <= 2_000_000 {
+        let mut two = bytes.to_vec();
+        two.extend_from_slice(bytes);
+        let mut cur = io::Cursor::new(&two[..]);
+        let r = guard::guard("consensus_decode(two in a row)", two.len(), || {
+            let a = T::consensus_decode(&mut cur);
+            let p1 = cur.position();
+            let b = T::consensus_decode(&mut cur);
+            (a, p1, b, cur.position())
+        })?;
+        match r {
+            (Ok(a), p1, Ok(b), p2) => {
+                ensure!(p1 as usize == len && p2 as usize == 2 * len, "{}: decoding two concatenated encodings of {} bytes left the reader at {} and {} (read-ahead or under-read)", name, len, p1, p2);
+                ensure!(&a == v && &b == v, "{}: decoding two concatenated encodings from one reader gives different values", name);
+            }
+            (Err(e), _, _, _) => fail!("{}: first of two concatenated encodings rejected: {}", name, e),
+            (_, p1, Err(e), _) => fail!("{}: second of two concatenated encodings rejected: {} (reader at {} after the first, encoding has {} bytes)", name, e, p1, len),
+        }
+    }
+    // (c) short writes
+    let mut w = ShortWriter { out: Vec::with_capacity(len), k };
+    let r = guard::guard("consensus_encode(short writes)", len, || v.consensus_encode(&mut w))?;
+    match r {
+        Ok(n) => {
+            ensure!(w.out == bytes, "{}: encoding into a writer that accepts at most {} bytes per write produced different bytes ({} instead of {})", name, k, w.out.len(), len);
+            ensure!(n == len, "{}: consensus_encode into a writer with short writes reported {} bytes, wrote {}", name, n, len);
+        }
+        Err(e) => fail!("{}: consensus_encode into a writer with short writes failed: {}", name, e),
+    }
+    Ok(())
+}
+
 /// value -> bytes -> value, against the reference bytes
 pub fn roundtrip_value<T: Encodable + Decodable + PartialEq + Debug>(
     name: &str,
@@ -39,11 +119,18 @@ pub fn roundtrip_value<T: Encodable + Decodable + PartialEq + Debug>(
     ctx.eval();
     if let Some(w) = want {
         if bytes != w {
+            let at = bytes.iter().zip(w.iter()).position(|(a, b)| a != b).unwrap_or(bytes.len().min(w.len()));
+            let from = at.saturating_sub(16);
             return Err(Failure::new(format!(
-                "{}: serialize differs from the reference encoding\n lib={}\n ref={}\n value={:?}",
+                "{}: serialize differs from the reference encoding (lib {} bytes, reference {} bytes, first difference at offset {})\n lib[{}..]={}\n ref[{}..]={}\n value={:?}",
                 name,
-                hex(&bytes),
-                hex(w),
+                bytes.len(),
+                w.len(),
+                at,
+                from,
+                hex(&bytes[from.min(bytes.len())..(from + 200).min(bytes.len())]),
+                from,
+                hex(&w[from.min(w.len())..(from + 200).min(w.len())]),
                 v
             )));
         }
@@ -67,8 +154,9 @@ pub fn roundtrip_value<T: Encodable + Decodable + PartialEq + Debug>(
     let back = guard::guard("deserialize", bytes.len(), || deserialize::<T>(&bytes))?;
     match back {
         Ok(b) => ensure!(&b == v, "{}: deserialize(serialize(v)) != v\n v={:?}\n back={:?}", name, v, b),
-        Err(e) => fail!("{}: own encoding rejected: {} (bytes {}, value {:?})", name, e, hex(&bytes), v),
+        Err(e) => fail!("{}: own encoding rejected: {} ({} bytes starting {}, value {:?})", name, e, bytes.len(), hex(&bytes[..bytes.len().min(96)]), v),
     }
+    io_variants(name, v, &bytes)?;
     if !junk.is_empty() {
         let mut ext = bytes.clone();
         ext.extend_from_slice(junk);
@@ -88,52 +176,105 @@ pub fn roundtrip_value<T: Encodable + Decodable + PartialEq + Debug>(
 }
 
 /// bytes accepted => re-encoding reproduces exactly these bytes (implies full consumption, one
-/// encoding per value, rejection of every non-canonical form) and decodes back to an equal value.
-/// Returns Some(error kind) when rejected.
+/// encoding per value, rejection of every non-canonical form), the encoder reports that length,
+/// and the re-encoding decodes back to an equal value. Ok(Ok(value)) when accepted,
+/// Ok(Err(error kind)) when rejected.
+fn accept_core<T: Encodable + Decodable + PartialEq + Debug>(name: &str, b: &[u8], ctx: &mut Ctx) -> Result<Result<T, String>, Failure> {
+    ctx.eval();
+    match guard::guard("deserialize", b.len(), || deserialize::<T>(b))? {
+        Err(e) => Ok(Err(err_kind(&e))),
+        Ok(v) => {
+            let re = guard::guard("serialize", b.len(), || serialize(&v))?;
+            if re != b {
+                let at = b.iter().zip(re.iter()).position(|(x, y)| x != y).unwrap_or(b.len().min(re.len()));
+                let from = at.saturating_sub(16);
+                let win = |s: &[u8]| hex(&s[from.min(s.len())..(from + 160).min(s.len())]);
+                return Err(Failure::new(format!(
+                    "{}: decoder accepted bytes that do not re-encode to themselves (input {} bytes, re-encoding {} bytes, first difference at offset {})\n input[{}..] ={}\n reenc[{}..] ={}\n input starts {}\n value={:?}",
+                    name,
+                    b.len(),
+                    re.len(),
+                    at,
+                    from,
+                    win(b),
+                    from,
+                    win(&re),
+                    hex(&b[..b.len().min(64)]),
+                    v
+                )));
+            }
+            // "the length reported by the encoder equals the number of bytes written" for decoder-made values
+            let mut cw = CountingWriter(0);
+            match guard::guard("consensus_encode", b.len(), || v.consensus_encode(&mut cw))? {
+                Ok(n) => ensure!(
+                    n == cw.0 && n == re.len(),
+                    "{}: consensus_encode of a decoded value reported {} bytes, wrote {}, serialize gives {}",
+                    name,
+                    n,
+                    cw.0,
+                    re.len()
+                ),
+                Err(e) => fail!("{}: consensus_encode of a decoded value to an infallible writer failed: {}", name, e),
+            }
+            match guard::guard("deserialize", re.len(), || deserialize::<T>(&re))? {
+                Ok(v2) => ensure!(v2 == v, "{}: decode(encode(decode(b))) != decode(b)", name),
+                Err(e) => fail!("{}: re-encoding of an accepted value is rejected: {}", name, e),
+            }
+            Ok(Ok(v))
+        }
+    }
+}
+
+/// `accept_core`; returns Some(error kind) when rejected.
 pub fn accept_implies_canonical<T: Encodable + Decodable + PartialEq + Debug>(
     name: &str,
     b: &[u8],
     ctx: &mut Ctx,
 ) -> Result<Option<String>, Failure> {
-    ctx.eval();
-    match guard::guard("deserialize", b.len(), || deserialize::<T>(b))? {
-        Err(e) => Ok(Some(err_kind(&e))),
+    Ok(accept_core::<T>(name, b, ctx)?.err())
+}
+
+/// `accept_core` plus: the *reference* encoder renders the decoded value to the same bytes (turns
+/// every accepted mutant into a differential case, also for shapes only mutants reach)
+fn accept_ref<T: Encodable + Decodable + PartialEq + Debug>(
+    name: &str,
+    b: &[u8],
+    ctx: &mut Ctx,
+    refenc: impl Fn(&mut Vec<u8>, &T),
+) -> Result<Option<String>, Failure> {
+    match accept_core::<T>(name, b, ctx)? {
+        Err(k) => Ok(Some(k)),
         Ok(v) => {
-            let re = guard::guard("serialize", b.len(), || serialize(&v))?;
-            if re != b {
+            let mut w = Vec::with_capacity(b.len());
+            refenc(&mut w, &v);
+            if w != b {
                 return Err(Failure::new(format!(
-                    "{}: decoder accepted bytes that do not re-encode to themselves\n input ={}\n reenc ={}\n value={:?}",
+                    "{}: accepted bytes re-encode to themselves but the reference encoder renders the decoded value differently\n input={}\n ref  ={}\n value={:?}",
                     name,
                     hex(b),
-                    hex(&re),
+                    hex(&w),
                     v
                 )));
-            }
-            match guard::guard("deserialize", re.len(), || deserialize::<T>(&re))? {
-                Ok(v2) => ensure!(v2 == v, "{}: decode(encode(decode(b))) != decode(b)", name),
-                Err(e) => fail!("{}: re-encoding of an accepted value is rejected: {}", name, e),
             }
             Ok(None)
         }
     }
 }
 
+/// histogram label of a decode error: the variant name (read off the `Debug` rendering, so that a
+/// library change that adds / renames error variants does not break the build of the harness),
+/// with the reason for `ParseFailed`
 fn err_kind(e: &elements::encode::Error) -> String {
-    use elements::encode::Error as E;
-    match e {
-        E::Io(_) => "Io".into(),
-        E::Bitcoin(_) => "Bitcoin".into(),
-        E::OversizedVectorAllocation { .. } => "OversizedVectorAllocation".into(),
-        E::ParseFailed(s) => format!("ParseFailed({})", s),
-        E::UnexpectedEOF => "UnexpectedEOF".into(),
-        E::InvalidConfidentialPrefix(_) => "InvalidConfidentialPrefix".into(),
-        E::Secp256k1(_) => "Secp256k1".into(),
-        E::Secp256k1zkp(_) => "Secp256k1zkp".into(),
-        E::PsetError(_) => "PsetError".into(),
-        E::HexFixedError(_) => "Hex".into(),
-        E::HexVariableError(_) => "Hex".into(),
-        E::BadLockTime(_) => "BadLockTime".into(),
-        E::NonMinimalVarInt => "NonMinimalVarInt".into(),
+    let d = format!("{:?}", e);
+    let head: String = d.chars().take_while(|c| c.is_ascii_alphanumeric() || *c == '_').collect();
+    if head == "ParseFailed" {
+        let reason: String = d.chars().filter(|c| *c != '"').take(100).collect();
+        return reason;
+    }
+    if head.is_empty() {
+        "Other".into()
+    } else {
+        head
     }
 }
 
@@ -401,26 +542,26 @@ macro_rules! dispatch_any {
 pub fn check_bytes_as(ty: usize, b: &[u8], ctx: &mut Ctx) -> Result<Option<String>, Failure> {
     let n = TYPES[ty];
     match ty {
-        0 => accept_implies_canonical::<Transaction>(n, b, ctx),
-        1 => accept_implies_canonical::<TxIn>(n, b, ctx),
-        2 => accept_implies_canonical::<TxOut>(n, b, ctx),
-        3 => accept_implies_canonical::<TxInWitness>(n, b, ctx),
-        4 => accept_implies_canonical::<TxOutWitness>(n, b, ctx),
-        5 => accept_implies_canonical::<Block>(n, b, ctx),
-        6 => accept_implies_canonical::<BlockHeader>(n, b, ctx),
-        7 => accept_implies_canonical::<dynafed::Params>(n, b, ctx),
-        8 => accept_implies_canonical::<dynafed::FullParams>(n, b, ctx),
-        9 => accept_implies_canonical::<Asset>(n, b, ctx),
-        10 => accept_implies_canonical::<Value>(n, b, ctx),
-        11 => accept_implies_canonical::<Nonce>(n, b, ctx),
-        12 => accept_implies_canonical::<AssetIssuance>(n, b, ctx),
-        13 => accept_implies_canonical::<OutPoint>(n, b, ctx),
-        14 => accept_implies_canonical::<Script>(n, b, ctx),
-        15 => accept_implies_canonical::<LockTime>(n, b, ctx),
-        16 => accept_implies_canonical::<Sequence>(n, b, ctx),
-        17 => accept_implies_canonical::<Txid>(n, b, ctx),
-        18 => accept_implies_canonical::<BlockHash>(n, b, ctx),
-        _ => accept_implies_canonical::<elements::AssetId>(n, b, ctx),
+        0 => accept_ref::<Transaction>(n, b, ctx, |o, v| enc::tx(o, v, true)),
+        1 => accept_ref::<TxIn>(n, b, ctx, |o, v| enc::txin(o, v)),
+        2 => accept_ref::<TxOut>(n, b, ctx, |o, v| enc::txout(o, v)),
+        3 => accept_ref::<TxInWitness>(n, b, ctx, |o, v| enc::in_witness(o, v)),
+        4 => accept_ref::<TxOutWitness>(n, b, ctx, |o, v| enc::out_witness(o, v)),
+        5 => accept_ref::<Block>(n, b, ctx, |o, v| enc::block(o, v)),
+        6 => accept_ref::<BlockHeader>(n, b, ctx, |o, v| enc::header(o, v, false)),
+        7 => accept_ref::<dynafed::Params>(n, b, ctx, |o, v| enc::params(o, v)),
+        8 => accept_ref::<dynafed::FullParams>(n, b, ctx, |o, v| enc::full_params(o, v)),
+        9 => accept_ref::<Asset>(n, b, ctx, |o, v| enc::asset(o, v)),
+        10 => accept_ref::<Value>(n, b, ctx, |o, v| enc::value(o, v)),
+        11 => accept_ref::<Nonce>(n, b, ctx, |o, v| enc::nonce(o, v)),
+        12 => accept_ref::<AssetIssuance>(n, b, ctx, |o, v| enc::issuance(o, v)),
+        13 => accept_ref::<OutPoint>(n, b, ctx, |o, v| enc::outpoint(o, v)),
+        14 => accept_ref::<Script>(n, b, ctx, |o, v| enc::var_bytes(o, v.as_bytes())),
+        15 => accept_ref::<LockTime>(n, b, ctx, |o, v| o.extend_from_slice(&v.to_consensus_u32().to_le_bytes())),
+        16 => accept_ref::<Sequence>(n, b, ctx, |o, v| o.extend_from_slice(&v.0.to_le_bytes())),
+        17 => accept_ref::<Txid>(n, b, ctx, |o, v| o.extend_from_slice(&v.to_byte_array())),
+        18 => accept_ref::<BlockHash>(n, b, ctx, |o, v| o.extend_from_slice(&v.to_byte_array())),
+        _ => accept_ref::<elements::AssetId>(n, b, ctx, |o, v| o.extend_from_slice(&v.to_byte_array())),
     }
 }
 
@@ -645,6 +786,1016 @@ fn noncanonical(t: &mut Tape, ctx: &mut Ctx) -> R {
     Ok(())
 }
 
+// ------------------------------------------------------------------------------------------------
+// review g1: big / varied values (ext_g1 generators), plan-first mutants, container rejection
+// classes, compact-size boundary table, constructors
+// ------------------------------------------------------------------------------------------------
+
+/// container types only; transactions, blocks and headers get most of the weight
+fn pick_type_x(t: &mut Tape) -> usize {
+    match t.below(16) {
+        0..=5 => 0,
+        6..=8 => 5,
+        9..=11 => 6,
+        12 => 7,
+        13 => 8,
+        _ => 3,
+    }
+}
+
+/// like `gen_any`, with the extension generators for the container types
+pub fn gen_any_x(t: &mut Tape, ty: usize) -> AnyVal {
+    let o = TxOpts::default();
+    match ty {
+        0 => AnyVal::Tx(xg::gen_tx_x(t, &o, xg::LADDER_INOUT)),
+        3 => AnyVal::InWit(xg::gen_in_witness_x(t, xg::LADDER_STACK)),
+        5 => AnyVal::Block(xg::gen_block_x(t, xg::LADDER_TXS)),
+        6 => AnyVal::Header(xg::gen_header_x(t)),
+        7 => AnyVal::Params(xg::gen_params_x(t)),
+        8 => AnyVal::FullParams(xg::gen_full_params_x(t)),
+        _ => gen_any(t, ty),
+    }
+}
+
+/// one byte vector of 128 KiB .. 4 000 000 bytes (the decoder's bound, inclusive) in every carrier
+fn gen_huge(t: &mut Tape) -> (AnyVal, &'static str) {
+    let n = t.choose(xg::HUGE_LENS);
+    let small = TxOpts { big: false, ..TxOpts::default() };
+    match t.below(6) {
+        0 => (AnyVal::Script(xg::script_of_len(t, n)), "script"),
+        1 => {
+            let mut o = gen::gen_txout(t, &TxOpts { witness: false, ..small });
+            o.script_pubkey = xg::script_of_len(t, n);
+            (AnyVal::TxOut(o), "txout.script_pubkey")
+        }
+        2 => {
+            let mut tx = gen::gen_tx(t, &small);
+            if tx.input.is_empty() {
+                tx.input.push(gen::gen_txin(t, &small));
+            }
+            let k = t.below(tx.input.len());
+            tx.input[k].script_sig = xg::script_of_len(t, n);
+            (AnyVal::Tx(tx), "tx.script_sig")
+        }
+        3 => {
+            let mut tx = gen::gen_tx(t, &small);
+            if tx.input.is_empty() {
+                tx.input.push(gen::gen_txin(t, &small));
+            }
+            let k = t.below(tx.input.len());
+            let item = t.filler(n);
+            if t.bool() {
+                tx.input[k].witness.script_witness.push(item);
+            } else {
+                tx.input[k].witness.pegin_witness.insert(0, item);
+            }
+            (AnyVal::Tx(tx), "tx.witness-item")
+        }
+        4 => {
+            let mut f = gen::gen_full_params(t);
+            f.fedpegscript = t.filler(n);
+            (AnyVal::FullParams(f), "params.fedpegscript")
+        }
+        _ => {
+            let mut h = gen::gen_header(t);
+            h.ext = elements::BlockExtData::Proof { challenge: gen::gen_script(t, false), solution: xg::script_of_len(t, n) };
+            (AnyVal::Header(h), "header.solution")
+        }
+    }
+}
+
+fn features_x(any: &AnyVal) -> Vec<String> {
+    match any {
+        AnyVal::Tx(tx) => xg::tx_features_x(tx),
+        AnyVal::Block(b) => xg::block_features_x(b),
+        AnyVal::Header(h) => xg::header_features_x(h),
+        AnyVal::Params(p) => xg::params_features_of(p),
+        AnyVal::FullParams(f) => {
+            let mut v = Vec::new();
+            xg::full_params_features(f, &mut v);
+            v
+        }
+        AnyVal::InWit(w) => xg::in_witness_features_x(w),
+        _ => vec![],
+    }
+}
+
+fn len_class(n: usize) -> &'static str {
+    match n {
+        0..=2999 => "<3000",
+        3000..=65535 => "3000..0xffff",
+        65536..=999_999 => "0x10000..1M",
+        _ => ">=1M",
+    }
+}
+
+/// (a') like `values`, for what one 3000-byte tape cannot vary: long header / parameter fields,
+/// every count class, elements varied at every index, byte vectors up to the decoder's bound.
+/// The junk suffix is drawn *before* the value so that big values get one too.
+fn big_values(t: &mut Tape, ctx: &mut Ctx) -> R {
+    let nj = t.below(6);
+    let junk5 = t.bytes(5);
+    let junk = &junk5[..nj];
+    let huge = t.chance(2);
+    let (any, carrier) = if huge {
+        gen_huge(t)
+    } else {
+        let ty = pick_type_x(t);
+        (gen_any_x(t, ty), "")
+    };
+    let ty = any.type_index();
+    let (want, _) = any.ref_encode();
+    let name = TYPES[ty];
+    dispatch_any!(&any, v => roundtrip_value(name, v, Some(&want), junk, ctx))?;
+    ctx.class(&format!("xvalue:{}", name));
+    ctx.class(&format!("xvalue:encoded-len:{}", len_class(want.len())));
+    if huge {
+        ctx.class(&format!("xvalue:huge:{}", carrier));
+    }
+    if !junk.is_empty() && want.len() >= 3000 {
+        ctx.class("xvalue:junk-after-encoding>=3000-bytes");
+    }
+    let feats = features_x(&any);
+    for f in &feats {
+        ctx.class(&format!("x:{}", f));
+    }
+    if !feats.is_empty() || huge {
+        ctx.nontrivial(&(ty, &want));
+        let cls = format!("xvalue:{}", name);
+        if ctx.wants_sample(&cls) {
+            ctx.sample(&cls, || json!({"type": name, "x_features": feats, "encoded_len": want.len()}));
+        }
+    }
+    Ok(())
+}
+
+/// (b') like `mutants`, with the mutation plan drawn *before* the value (so that it does not
+/// collapse to "flip bit 0 of byte 0" when a big value has used up the tape) and on the big /
+/// varied values of `big_values`
+fn big_mutants(t: &mut Tape, ctx: &mut Ctx) -> R {
+    let plan = xg::plan_tape(t, 24, 72);
+    let ty = pick_type_x(t);
+    let any = gen_any_x(t, ty);
+    let (orig, layout) = any.ref_encode();
+    let mut pt = Tape::new(&plan);
+    let mut b = orig.clone();
+    let nm = 1 + pt.below(3);
+    let mut ops = Vec::new();
+    for _ in 0..nm {
+        ops.push(mutate::mutate_once(&mut pt, &mut b, &layout));
+    }
+    if b == orig {
+        ctx.class("xmutant:no-op");
+        return Ok(());
+    }
+    let as_ty = if pt.chance(24) { pt.below(TYPES.len()) } else { ty };
+    let res = check_bytes_as(as_ty, &b, ctx)?;
+    for op in &ops {
+        ctx.class(&format!("xop:{}", op));
+    }
+    let first_diff = orig.iter().zip(b.iter()).position(|(x, y)| x != y).unwrap_or(orig.len().min(b.len()));
+    ctx.class(&format!("xmutant:first-difference-at:{}", len_class(first_diff)));
+    ctx.class(&format!("xmutant:encoded-len:{}", len_class(orig.len())));
+    match &res {
+        None => {
+            ctx.class("xmutant:accepted(re-encodes identically, reference agrees)");
+            ctx.nontrivial(&(as_ty, &b));
+        }
+        Some(kind) => {
+            ctx.class(&format!("xmutant:rejected:{}", kind));
+            if b.len() > 8 {
+                ctx.nontrivial(&(as_ty, &b));
+            }
+            let cls = format!("xmutant-rejected:{}", ops[0]);
+            if ctx.wants_sample(&cls) {
+                ctx.sample(&cls, || json!({"type": TYPES[as_ty], "ops": ops, "error": kind, "mutant_len": b.len(), "first_difference_at": first_diff}));
+            }
+        }
+    }
+    Ok(())
+}
+
+/// a transaction encoding that no decoder may accept, for embedding into a block;
+/// kinds 0..2 fail inside the transaction itself, wherever it stands
+fn bad_tx_bytes(t: &mut Tape, kind: usize) -> (&'static str, Vec<u8>) {
+    let o = TxOpts { big: false, max_in: 2, max_out: 2, ..TxOpts::default() };
+    let mut tx = gen::gen_tx(t, &o);
+    match kind {
+        0 => {
+            for i in &mut tx.input {
+                i.witness = TxInWitness::empty();
+            }
+            for o in &mut tx.output {
+                o.witness = TxOutWitness::empty();
+            }
+            let mut b = enc::tx_full(&tx);
+            b[4] = 1;
+            for _ in &tx.input {
+                b.extend_from_slice(&[0, 0, 0, 0]);
+            }
+            for _ in &tx.output {
+                b.extend_from_slice(&[0, 0]);
+            }
+            ("block-tx:witness-flag-with-all-empty-witnesses", b)
+        }
+        1 => {
+            if tx.input.is_empty() {
+                tx.input.push(gen::gen_txin(t, &o));
+            }
+            let k = t.below(tx.input.len());
+            tx.input[k].asset_issuance = AssetIssuance::null();
+            let v = tx.input[k].previous_output.vout;
+            if v == u32::MAX || v == 0x3fff_ffff {
+                // keep clear of the flag-exempt index 0xffffffff (also as 2^30-1 plus both flags)
+                tx.input[k].previous_output.vout = 0;
+            }
+            let (b, l) = enc::with_layout(|| enc::tx_full(&tx));
+            let start = l.bounds[k];
+            let mut b = b;
+            b[start + 35] |= 0x80;
+            let script_len = tx.input[k].script_sig.len();
+            let ins_at = start + 36 + enc::compact_size_len(script_len as u64) + script_len + 4;
+            b.splice(ins_at..ins_at, vec![0u8; 66]);
+            ("block-tx:superfluous-null-issuance", b)
+        }
+        _ => {
+            let mut b = enc::tx_full(&tx);
+            b[4] = t.choose(&[2u8, 3, 0x80, 0xff]);
+            ("block-tx:bad-witness-flag-value", b)
+        }
+    }
+}
+
+/// rejection classes of the statement inside the *containers* (`noncanonical` builds them for a
+/// stand-alone transaction only): each string must be an error
+fn noncanonical_containers(t: &mut Tape, ctx: &mut Ctx) -> R {
+    let class = t.below(8);
+    let name: &'static str;
+    // 0: Block, 1: BlockHeader, 2: Params, 3: FullParams
+    let as_ty: usize;
+    let bytes: Vec<u8> = match class {
+        0..=3 => {
+            as_ty = 0;
+            let header = gen::gen_header(t);
+            let n = 1 + t.below(4);
+            let o = TxOpts { big: false, max_in: 2, max_out: 2, ..TxOpts::default() };
+            let mut out = Vec::new();
+            enc::header(&mut out, &header, false);
+            enc::compact_size(&mut out, n as u64);
+            if class == 3 {
+                // flag 0 although a witness section follows: in the *last* transaction of the block the
+                // section is left over as trailing bytes
+                name = "block-tx:witness-flag-0-but-witness-section-present(last tx)";
+                for _ in 0..n - 1 {
+                    out.extend(enc::tx_full(&gen::gen_tx(t, &o)));
+                }
+                let mut tx = gen::gen_tx(t, &o);
+                if !enc::tx_has_witness(&tx) {
+                    tx.output.push(gen::gen_txout(t, &o));
+                    if let Some(l) = tx.output.last_mut() {
+                        l.witness.rangeproof = Some(Box::new(gen::pool().rangeproofs[0].clone()));
+                    }
+                }
+                let mut b = enc::tx_full(&tx);
+                b[4] = 0;
+                out.extend(b);
+            } else {
+                let k = t.below(n);
+                let mut nm = "";
+                for i in 0..n {
+                    if i == k {
+                        let (s, b) = bad_tx_bytes(t, class);
+                        nm = s;
+                        out.extend(b);
+                    } else {
+                        out.extend(enc::tx_full(&gen::gen_tx(t, &o)));
+                    }
+                }
+                name = nm;
+            }
+            out
+        }
+        4 | 5 => {
+            // unknown dynafed parameter tag, in a header (stand-alone or in a block) or stand-alone
+            let mut h = gen::gen_header(t);
+            let which = t.bool();
+            let tag = 3 + t.below(253) as u8;
+            let cur = gen::gen_params(t);
+            if class == 5 {
+                as_ty = 2;
+                name = "params:unknown-tag";
+                let mut b = Vec::new();
+                enc::params(&mut b, &cur);
+                b[0] = tag;
+                b
+            } else {
+                let prop = gen::gen_params(t);
+                h.ext = elements::BlockExtData::Dynafed { current: cur.clone(), proposed: prop, signblock_witness: vec![] };
+                let mut b = Vec::new();
+                enc::header(&mut b, &h, false);
+                let mut cb = Vec::new();
+                enc::params(&mut cb, &cur);
+                // fixed part: version, prev, merkle root, time, height
+                let at = if which { 76 } else { 76 + cb.len() };
+                b[at] = tag;
+                if t.bool() {
+                    as_ty = 1;
+                    name = "header:unknown-params-tag";
+                } else {
+                    as_ty = 0;
+                    name = "block:unknown-params-tag-in-header";
+                    b.push(0); // no transactions
+                }
+                b
+            }
+        }
+        6 => {
+            // trailing bytes after a complete container
+            let nj = t.range(1, 5);
+            let junk = t.bytes(nj);
+            let mut b = Vec::new();
+            match t.below(4) {
+                0 => {
+                    as_ty = 0;
+                    name = "block:trailing-bytes";
+                    enc::block(&mut b, &gen::gen_block(t));
+                }
+                1 => {
+                    as_ty = 1;
+                    name = "header:trailing-bytes";
+                    enc::header(&mut b, &gen::gen_header(t), false);
+                }
+                2 => {
+                    as_ty = 2;
+                    name = "params:trailing-bytes";
+                    enc::params(&mut b, &gen::gen_params(t));
+                }
+                _ => {
+                    as_ty = 3;
+                    name = "full-params:trailing-bytes";
+                    enc::full_params(&mut b, &gen::gen_full_params(t));
+                }
+            }
+            b.extend(junk);
+            b
+        }
+        _ => {
+            // the transaction count of a block in a non-minimal form
+            as_ty = 0;
+            name = "block:non-minimal-tx-count";
+            let blk = gen::gen_block(t);
+            let mut b = Vec::new();
+            enc::header(&mut b, &blk.header, false);
+            let n = blk.txdata.len() as u64;
+            match t.below(3) {
+                0 if n <= 0xfc => {
+                    b.push(0xfd);
+                    b.extend_from_slice(&(n as u16).to_le_bytes());
+                }
+                1 => {
+                    b.push(0xfe);
+                    b.extend_from_slice(&(n as u32).to_le_bytes());
+                }
+                _ => {
+                    b.push(0xff);
+                    b.extend_from_slice(&n.to_le_bytes());
+                }
+            }
+            for tx in &blk.txdata {
+                enc::tx(&mut b, tx, true);
+            }
+            b
+        }
+    };
+    ctx.eval();
+    let (accepted, err): (bool, Option<String>) = match as_ty {
+        0 => {
+            let r = guard::guard("deserialize", bytes.len(), || deserialize::<Block>(&bytes))?;
+            (r.is_ok(), r.err().map(|e| e.to_string()))
+        }
+        1 => {
+            let r = guard::guard("deserialize", bytes.len(), || deserialize::<BlockHeader>(&bytes))?;
+            (r.is_ok(), r.err().map(|e| e.to_string()))
+        }
+        2 => {
+            let r = guard::guard("deserialize", bytes.len(), || deserialize::<dynafed::Params>(&bytes))?;
+            (r.is_ok(), r.err().map(|e| e.to_string()))
+        }
+        _ => {
+            let r = guard::guard("deserialize", bytes.len(), || deserialize::<dynafed::FullParams>(&bytes))?;
+            (r.is_ok(), r.err().map(|e| e.to_string()))
+        }
+    };
+    ensure!(!accepted, "non-canonical {} encoding ({}) was accepted\n input ={}", ["Block", "BlockHeader", "Params", "FullParams"][as_ty], name, hex(&bytes));
+    let cls = format!("noncanonical:{}", name);
+    ctx.class(&cls);
+    ctx.nontrivial(&(class, &bytes));
+    if ctx.wants_sample(&cls) {
+        ctx.sample(&cls, || json!({"class": name, "len": bytes.len(), "error": err}));
+    }
+    Ok(())
+}
+
+// ---- compact-size boundary table -------------------------------------------------------------
+
+const VB_VALUES: [usize; 4] = [0xfc, 0xfd, 0xffff, 0x10000];
+const VB_CARRIERS: &[&str] = &[
+    "tx.input.script_sig length",
+    "tx.output.script_pubkey length",
+    "tx.input.script_witness item length",
+    "tx.input.script_witness count",
+    "tx.input.pegin_witness count",
+    "tx.input.pegin_witness item length",
+    "tx input count",
+    "tx output count",
+    "tx.output.rangeproof length",
+    "tx.input.amount_rangeproof length",
+    "block transaction count",
+    "header challenge length",
+    "header solution length",
+    "header signblock_witness count",
+    "header signblock_witness item length",
+    "header compact-params signblockscript length",
+    "full-params signblockscript length",
+    "full-params fedpeg_program length",
+    "full-params fedpegscript length",
+    "full-params extension_space count",
+    "full-params extension_space item length",
+    "stand-alone script length",
+    "stand-alone txout script_pubkey length",
+    "stand-alone txin script_sig length",
+    "stand-alone input witness script_witness count",
+];
+
+fn vb_fill(n: usize) -> Vec<u8> {
+    (0..n).map(|i| (i as u8).wrapping_mul(31).wrapping_add(7)).collect()
+}
+fn vb_in() -> TxIn {
+    TxIn {
+        previous_output: OutPoint { txid: Txid::from_byte_array([0x11; 32]), vout: 1 },
+        is_pegin: false,
+        script_sig: Script::new(),
+        sequence: Sequence(0xffff_fffe),
+        asset_issuance: AssetIssuance {
+            asset_blinding_nonce: elements::secp256k1_zkp::ZERO_TWEAK,
+            asset_entropy: [0; 32],
+            amount: Value::Null,
+            inflation_keys: Value::Null,
+        },
+        witness: TxInWitness { amount_rangeproof: None, inflation_keys_rangeproof: None, script_witness: vec![], pegin_witness: vec![] },
+    }
+}
+fn vb_out() -> TxOut {
+    TxOut {
+        asset: Asset::Null,
+        value: Value::Null,
+        nonce: Nonce::Null,
+        script_pubkey: Script::new(),
+        witness: TxOutWitness { surjection_proof: None, rangeproof: None },
+    }
+}
+fn vb_tx(input: Vec<TxIn>, output: Vec<TxOut>) -> Transaction {
+    Transaction { version: 2, lock_time: LockTime::from_consensus(0), input, output }
+}
+fn vb_header(ext: elements::BlockExtData) -> BlockHeader {
+    BlockHeader {
+        version: 1,
+        prev_blockhash: BlockHash::from_byte_array([0x22; 32]),
+        merkle_root: elements::TxMerkleNode::from_byte_array([0x33; 32]),
+        time: 0,
+        height: 0,
+        ext,
+    }
+}
+fn vb_full(sbs: usize, fp: usize, fps: usize, ext: Vec<Vec<u8>>) -> dynafed::FullParams {
+    dynafed::FullParams::new(
+        Script::from(vb_fill(sbs)),
+        0,
+        elements::bitcoin::ScriptBuf::from_bytes(vb_fill(fp)),
+        vb_fill(fps),
+        ext,
+    )
+}
+fn vb_proof(n: usize) -> Option<Box<elements::secp256k1_zkp::RangeProof>> {
+    xg::boundary_rangeproofs().iter().find(|p| p.serialize().len() == n).map(|p| Box::new(p.clone()))
+}
+
+/// a value in which exactly the carrier `c` has length / count `n`, everything else being 0 or 1;
+/// None where the unchanged decoder's allocation bound (count * size_of::<T>() <= 4 000 000) does
+/// not admit `n` elements of that type, or no such proof exists
+fn vb_build(c: usize, n: usize) -> Option<AnyVal> {
+    use elements::BlockExtData as X;
+    let count_ok = n <= 0xfd;
+    Some(match c {
+        0 => {
+            let mut i = vb_in();
+            i.script_sig = Script::from(vb_fill(n));
+            AnyVal::Tx(vb_tx(vec![i], vec![vb_out()]))
+        }
+        1 => {
+            let mut o = vb_out();
+            o.script_pubkey = Script::from(vb_fill(n));
+            AnyVal::Tx(vb_tx(vec![vb_in()], vec![o]))
+        }
+        2 => {
+            let mut i = vb_in();
+            i.witness.script_witness = vec![vb_fill(n)];
+            AnyVal::Tx(vb_tx(vec![i], vec![vb_out()]))
+        }
+        3 => {
+            let mut i = vb_in();
+            i.witness.script_witness = vec![vec![]; n];
+            AnyVal::Tx(vb_tx(vec![i], vec![vb_out()]))
+        }
+        4 => {
+            let mut i = vb_in();
+            i.witness.pegin_witness = vec![vec![]; n];
+            AnyVal::Tx(vb_tx(vec![i], vec![vb_out()]))
+        }
+        5 => {
+            let mut i = vb_in();
+            i.witness.pegin_witness = vec![vb_fill(n)];
+            AnyVal::Tx(vb_tx(vec![i], vec![vb_out()]))
+        }
+        6 if count_ok => AnyVal::Tx(vb_tx(vec![vb_in(); n], vec![vb_out()])),
+        7 if count_ok => AnyVal::Tx(vb_tx(vec![vb_in()], vec![vb_out(); n])),
+        8 => {
+            let mut o = vb_out();
+            o.witness.rangeproof = Some(vb_proof(n)?);
+            AnyVal::Tx(vb_tx(vec![vb_in()], vec![o]))
+        }
+        9 => {
+            let mut i = vb_in();
+            i.witness.amount_rangeproof = Some(vb_proof(n)?);
+            AnyVal::Tx(vb_tx(vec![i], vec![vb_out()]))
+        }
+        10 if count_ok => AnyVal::Block(Block {
+            header: vb_header(X::Proof { challenge: Script::new(), solution: Script::new() }),
+            txdata: vec![vb_tx(vec![], vec![]); n],
+        }),
+        11 => AnyVal::Header(vb_header(X::Proof { challenge: Script::from(vb_fill(n)), solution: Script::new() })),
+        12 => AnyVal::Header(vb_header(X::Proof { challenge: Script::new(), solution: Script::from(vb_fill(n)) })),
+        13 => AnyVal::Header(vb_header(X::Dynafed {
+            current: dynafed::Params::Null,
+            proposed: dynafed::Params::Null,
+            signblock_witness: vec![vec![]; n],
+        })),
+        14 => AnyVal::Header(vb_header(X::Dynafed {
+            current: dynafed::Params::Null,
+            proposed: dynafed::Params::Null,
+            signblock_witness: vec![vb_fill(n)],
+        })),
+        15 => AnyVal::Header(vb_header(X::Dynafed {
+            current: dynafed::Params::Compact {
+                signblockscript: Script::from(vb_fill(n)),
+                signblock_witness_limit: 0,
+                elided_root: dynafed::ElidedRoot::from_byte_array([0x44; 32]),
+            },
+            proposed: dynafed::Params::Null,
+            signblock_witness: vec![],
+        })),
+        16 => AnyVal::FullParams(vb_full(n, 0, 0, vec![])),
+        17 => AnyVal::FullParams(vb_full(0, n, 0, vec![])),
+        18 => AnyVal::FullParams(vb_full(0, 0, n, vec![])),
+        19 => AnyVal::FullParams(vb_full(0, 0, 0, vec![vec![]; n])),
+        20 => AnyVal::FullParams(vb_full(0, 0, 0, vec![vb_fill(n)])),
+        21 => AnyVal::Script(Script::from(vb_fill(n))),
+        22 => {
+            let mut o = vb_out();
+            o.script_pubkey = Script::from(vb_fill(n));
+            AnyVal::TxOut(o)
+        }
+        23 => {
+            let mut i = vb_in();
+            i.script_sig = Script::from(vb_fill(n));
+            AnyVal::TxIn(i)
+        }
+        24 => {
+            let mut i = vb_in();
+            i.witness.script_witness = vec![vec![]; n];
+            AnyVal::InWit(i.witness)
+        }
+        _ => return None,
+    })
+}
+
+/// offset of the one compact size in `bytes` whose value is `n` (by the recorded layout)
+fn vb_find(bytes: &[u8], l: &enc::Layout, n: usize) -> usize {
+    let mut found = Vec::new();
+    for &p in &l.cs {
+        let v = match bytes[p] {
+            0xfd => u64::from(u16::from_le_bytes([bytes[p + 1], bytes[p + 2]])),
+            0xfe => u64::from(u32::from_le_bytes([bytes[p + 1], bytes[p + 2], bytes[p + 3], bytes[p + 4]])),
+            x => u64::from(x),
+        };
+        if v == n as u64 {
+            found.push(p);
+        }
+    }
+    assert!(found.len() == 1, "harness: carrier compact size not unique ({} matches for {})", found.len(), n);
+    found[0]
+}
+
+fn vb_expect_reject(ty: usize, carrier: &str, what: &str, m: &[u8], ctx: &mut Ctx) -> R {
+    match check_bytes_as(ty, m, ctx) {
+        Ok(Some(kind)) => {
+            ctx.class(&format!("varint:rejected:{}", kind));
+            Ok(())
+        }
+        Ok(None) => fail!("{} encoded as {} was accepted as {} (and re-encodes identically?)", carrier, what, TYPES[ty]),
+        Err(f) => fail!("{} encoded as {} was accepted as {}: {}", carrier, what, TYPES[ty], f.msg),
+    }
+}
+
+const VB_MAX_ROWS: usize = 4;
+/// byte vectors right at the decoder's bound (4 000 000 bytes, inclusive) are values like any other
+fn max_size_vectors(k: usize, ctx: &mut Ctx) -> R {
+    let (any, what) = match k {
+        0 => (AnyVal::Script(Script::from(vb_fill(4_000_000))), "a 4 000 000-byte script"),
+        1 => {
+            let mut i = vb_in();
+            i.witness.script_witness = vec![vec![1], vb_fill(4_000_000)];
+            (AnyVal::Tx(vb_tx(vec![i], vec![vb_out()])), "a 4 000 000-byte witness item")
+        }
+        2 => {
+            let mut o = vb_out();
+            o.script_pubkey = Script::from(vb_fill(3_999_999));
+            (AnyVal::TxOut(o), "a 3 999 999-byte script_pubkey")
+        }
+        _ => (AnyVal::FullParams(vb_full(1, 1, 4_000_000, vec![])), "a 4 000 000-byte fedpegscript"),
+    };
+    let ty = any.type_index();
+    let (bytes, _) = any.ref_encode();
+    dispatch_any!(&any, v => roundtrip_value(&format!("{} with {}", TYPES[ty], what), v, Some(&bytes), &[], ctx))?;
+    match check_bytes_as(ty, &bytes, ctx)? {
+        None => ctx.class("varint:vector-at-the-size-bound-accepted"),
+        Some(kind) => fail!("the encoding of {} with {} was rejected: {}", TYPES[ty], what, kind),
+    }
+    ctx.nontrivial(&("max", k));
+    Ok(())
+}
+
+/// every compact-size carrier x every boundary value: the minimal form of 0xfc / 0xfd / 0xffff /
+/// 0x10000 is accepted (and round-trips), every wider form of the same number is rejected, and
+/// the fixed table of non-minimal / unsatisfiable prefixes is rejected at that position
+fn varint_boundaries(idx: u64, _seed: u64, ctx: &mut Ctx) -> R {
+    if idx as usize >= VB_CARRIERS.len() * 5 {
+        return max_size_vectors(idx as usize - VB_CARRIERS.len() * 5, ctx);
+    }
+    let c = idx as usize / 5;
+    let sub = idx as usize % 5;
+    let carrier = VB_CARRIERS[c];
+    let n = if sub < 4 { VB_VALUES[sub] } else { 0xfd };
+    let Some(any) = vb_build(c, n) else {
+        ctx.class("varint:not-applicable(count above the decoder's allocation bound / no proof of that length)");
+        return Ok(());
+    };
+    let ty = any.type_index();
+    let (bytes, layout) = any.ref_encode();
+    let p = vb_find(&bytes, &layout, n);
+    let w = enc::compact_size_len(n as u64);
+    if sub < 4 {
+        // minimal form: the value round-trips and the bytes are accepted as canonical
+        dispatch_any!(&any, v => roundtrip_value(TYPES[ty], v, Some(&bytes), &[], ctx))?;
+        match check_bytes_as(ty, &bytes, ctx)? {
+            None => ctx.class("varint:minimal-form-accepted"),
+            Some(kind) => fail!("{} = {:#x} in its minimal {}-byte form was rejected: {}", carrier, n, w, kind),
+        }
+        for (tag, width) in [(0xfdu8, 3usize), (0xfe, 5), (0xff, 9)] {
+            if width > w {
+                let mut e = vec![tag];
+                e.extend_from_slice(&(n as u64).to_le_bytes()[..width - 1]);
+                let mut m = bytes.clone();
+                m.splice(p..p + w, e);
+                vb_expect_reject(ty, carrier, &format!("{:#x} in the non-minimal {}-byte form", n, width), &m, ctx)?;
+                ctx.class("varint:wider-form-rejected");
+            }
+        }
+        ctx.nontrivial(&(c, n));
+    } else {
+        let table: [(&str, &[u8]); 6] = [
+            ("fd fc 00 (0xfc, non-minimal)", &[0xfd, 0xfc, 0x00]),
+            ("fd 00 00 (0, non-minimal)", &[0xfd, 0x00, 0x00]),
+            ("fe ff ff 00 00 (0xffff, non-minimal)", &[0xfe, 0xff, 0xff, 0x00, 0x00]),
+            ("ff ff ff ff ff 00 00 00 00 (0xffffffff, non-minimal)", &[0xff, 0xff, 0xff, 0xff, 0xff, 0, 0, 0, 0]),
+            ("fe ff ff ff ff (0xffffffff, minimal, but the data is not there)", &[0xfe, 0xff, 0xff, 0xff, 0xff]),
+            ("ff 00 00 00 00 01 00 00 00 (2^32, minimal, but the data is not there)", &[0xff, 0, 0, 0, 0, 1, 0, 0, 0]),
+        ];
+        for (what, e) in table {
+            let mut m = bytes.clone();
+            m.splice(p..p + w, e.iter().copied());
+            vb_expect_reject(ty, carrier, what, &m, ctx)?;
+            ctx.class("varint:table-prefix-rejected");
+        }
+        ctx.nontrivial(&(c, "table"));
+    }
+    Ok(())
+}
+
+// ---- values from the library's constructors ---------------------------------------------------
+
+fn ctor_roundtrip(name: &str, any: &AnyVal, ctx: &mut Ctx) -> R {
+    let (want, _) = any.ref_encode();
+    dispatch_any!(any, v => roundtrip_value(name, v, Some(&want), &[0x5a], ctx))?;
+    ctx.class(&format!("constructor:{}", name));
+    ctx.nontrivial(&(name, &want));
+    Ok(())
+}
+
+/// "every value obtained from ... the library's constructors and blinding functions encodes to
+/// bytes that decode back to an equal value": values are *made by the library's constructors*
+/// from pool keys / tape scalars (never by filling in fields), placed in a container where the
+/// statement names one, and sent through `roundtrip_value` against the reference encoding.
+/// A constructor that returns Err is not C01's business (counted, skipped).
+fn constructors(t: &mut Tape, ctx: &mut Ctx) -> R {
+    use elements::confidential::{AssetBlindingFactor, ValueBlindingFactor};
+    use elements::pset::PartiallySignedTransaction as Pset;
+    use rand::SeedableRng;
+    let p = gen::pool();
+    let secp = gen::secp();
+    let small = TxOpts { big: false, ..TxOpts::default() };
+    // non-zero scalars (a zero blinding factor with a zero amount has no commitment)
+    let tw = p.tweaks[t.below(p.tweaks.len())];
+    let tw2 = p.tweaks[t.below(p.tweaks.len())];
+    let (Ok(vbf), Ok(abf)) = (ValueBlindingFactor::from_slice(tw.as_ref()), AssetBlindingFactor::from_slice(tw2.as_ref())) else {
+        ctx.class("constructor:(blinding factor rejected)");
+        return Ok(());
+    };
+    let asset_id = gen::gen_asset_id(t);
+    let amount = t.edgy_u64();
+    let in_txout = |t: &mut Tape, asset: Asset, value: Value, nonce: Nonce| -> AnyVal {
+        let mut tx = gen::gen_tx(t, &small);
+        let o = TxOut { asset, value, nonce, script_pubkey: gen::gen_script(t, false), witness: TxOutWitness::empty() };
+        let k = t.below(tx.output.len() + 1);
+        tx.output.insert(k, o);
+        AnyVal::Tx(tx)
+    };
+    let which = t.below(22);
+    match which {
+        0 => {
+            let g = p.generators[t.below(p.generators.len())];
+            let v = guard::guard("Value::new_confidential", 0, || Value::new_confidential(secp, amount, g, vbf))?;
+            ctor_roundtrip("Value::new_confidential", &AnyVal::Value(v), ctx)?;
+            ctor_roundtrip("Value::new_confidential(in tx)", &in_txout(t, Asset::Confidential(g), v, Nonce::Null), ctx)
+        }
+        1 => {
+            let v = guard::guard("Value::new_confidential_from_assetid", 0, || Value::new_confidential_from_assetid(secp, amount, asset_id, vbf, abf))?;
+            ctor_roundtrip("Value::new_confidential_from_assetid", &AnyVal::Value(v), ctx)
+        }
+        2 => {
+            let a = guard::guard("Asset::new_confidential", 0, || Asset::new_confidential(secp, asset_id, abf))?;
+            ctor_roundtrip("Asset::new_confidential", &AnyVal::Asset(a), ctx)?;
+            ctor_roundtrip("Asset::new_confidential(in tx)", &in_txout(t, a, Value::Explicit(amount), Nonce::Null), ctx)
+        }
+        3 => {
+            let sk = p.seckeys[t.below(p.seckeys.len())];
+            let pk = p.pubkeys[t.below(p.pubkeys.len())];
+            let (n, _) = guard::guard("Nonce::with_ephemeral_sk", 0, || Nonce::with_ephemeral_sk(secp, sk, &pk))?;
+            ctor_roundtrip("Nonce::with_ephemeral_sk", &AnyVal::Nonce(n), ctx)?;
+            ctor_roundtrip("Nonce::with_ephemeral_sk(in tx)", &in_txout(t, Asset::Explicit(asset_id), Value::Explicit(amount), n), ctx)
+        }
+        4 => {
+            let mut rng = rand_chacha::ChaCha20Rng::from_seed(t.arr32());
+            let pk = p.pubkeys[t.below(p.pubkeys.len())];
+            let (n, _) = guard::guard("Nonce::new_confidential", 0, || Nonce::new_confidential(&mut rng, secp, &pk))?;
+            ctor_roundtrip("Nonce::new_confidential", &AnyVal::Nonce(n), ctx)
+        }
+        5 => {
+            let c = p.commitments[t.below(p.commitments.len())];
+            match guard::guard("Value::from_commitment", 33, || Value::from_commitment(&c.serialize()))? {
+                Ok(v) => ctor_roundtrip("Value::from_commitment", &AnyVal::Value(v), ctx),
+                Err(_) => {
+                    ctx.class("constructor:(returned Err)");
+                    Ok(())
+                }
+            }
+        }
+        6 => {
+            let g = p.generators[t.below(p.generators.len())];
+            match guard::guard("Asset::from_commitment", 33, || Asset::from_commitment(&g.serialize()))? {
+                Ok(v) => ctor_roundtrip("Asset::from_commitment", &AnyVal::Asset(v), ctx),
+                Err(_) => {
+                    ctx.class("constructor:(returned Err)");
+                    Ok(())
+                }
+            }
+        }
+        7 => {
+            let pk = p.pubkeys[t.below(p.pubkeys.len())];
+            let (b, nm): (Vec<u8>, &str) = if t.bool() {
+                (pk.serialize().to_vec(), "Nonce::from_commitment(compressed key)")
+            } else {
+                (pk.serialize_uncompressed().to_vec(), "Nonce::from_commitment(uncompressed key)")
+            };
+            match guard::guard("Nonce::from_commitment", b.len(), || Nonce::from_commitment(&b))? {
+                Ok(v) => {
+                    ctor_roundtrip(nm, &AnyVal::Nonce(v), ctx)?;
+                    ctor_roundtrip("Nonce::from_commitment(in tx)", &in_txout(t, Asset::Explicit(asset_id), Value::Explicit(amount), v), ctx)
+                }
+                Err(_) => {
+                    ctx.class("constructor:(returned Err)");
+                    Ok(())
+                }
+            }
+        }
+        8 => {
+            let o = guard::guard("TxOut::new_fee", 0, || TxOut::new_fee(amount, asset_id))?;
+            ctor_roundtrip("TxOut::new_fee", &AnyVal::TxOut(o.clone()), ctx)?;
+            let mut tx = gen::gen_tx(t, &small);
+            tx.output.push(o);
+            ctor_roundtrip("TxOut::new_fee(in tx)", &AnyVal::Tx(tx), ctx)
+        }
+        9 => {
+            let (i, o) = guard::guard("Default", 0, || (TxIn::default(), TxOut::default()))?;
+            ctor_roundtrip("TxIn::default", &AnyVal::TxIn(i.clone()), ctx)?;
+            ctor_roundtrip("TxOut::default", &AnyVal::TxOut(o.clone()), ctx)?;
+            let mut tx = gen::gen_tx(t, &small);
+            let ki = t.below(tx.input.len() + 1);
+            tx.input.insert(ki, i);
+            let ko = t.below(tx.output.len() + 1);
+            tx.output.insert(ko, o);
+            ctor_roundtrip("TxIn::default+TxOut::default(in tx)", &AnyVal::Tx(tx), ctx)
+        }
+        10 => {
+            let op = match t.below(3) {
+                0 => guard::guard("OutPoint::null", 0, OutPoint::null)?,
+                1 => guard::guard("OutPoint::default", 0, OutPoint::default)?,
+                _ => {
+                    let (txid, vout) = (gen::gen_txid(t), gen::gen_vout(t));
+                    guard::guard("OutPoint::new", 0, || OutPoint::new(txid, vout))?
+                }
+            };
+            ctor_roundtrip("OutPoint::{null,default,new}", &AnyVal::OutPoint(op), ctx)?;
+            let mut i = gen::gen_txin(t, &TxOpts { witness: false, coinbase: false, ..small });
+            i.previous_output = op;
+            if op.vout == u32::MAX {
+                // the flag-exempt index carries neither flag
+                i.is_pegin = false;
+                i.asset_issuance = AssetIssuance::null();
+            }
+            if i.is_pegin && i.has_issuance() && op.vout == 0x3fff_ffff {
+                i.is_pegin = false;
+            }
+            ctor_roundtrip("OutPoint::{null,default,new}(in txin)", &AnyVal::TxIn(i), ctx)
+        }
+        11 => {
+            let a = if t.bool() { guard::guard("AssetIssuance::null", 0, AssetIssuance::null)? } else { guard::guard("AssetIssuance::default", 0, AssetIssuance::default)? };
+            ctor_roundtrip("AssetIssuance::{null,default}", &AnyVal::Issuance(a), ctx)?;
+            let mut tx = gen::gen_tx(t, &small);
+            let mut i = TxIn::default();
+            i.asset_issuance = a;
+            i.previous_output = OutPoint::new(gen::gen_txid(t), gen::gen_vout(t));
+            tx.input.push(i);
+            ctor_roundtrip("AssetIssuance::{null,default}(in tx)", &AnyVal::Tx(tx), ctx)
+        }
+        12 | 13 => {
+            let f = if t.chance(32) { xg::gen_full_params_x(t) } else { gen::gen_full_params(t) };
+            let full = guard::guard("FullParams::new", 0, || {
+                dynafed::FullParams::new(f.signblockscript.clone(), f.signblock_witness_limit, f.fedpeg_program.clone(), f.fedpegscript.clone(), f.extension_space.clone())
+            })?;
+            ctor_roundtrip("FullParams::new", &AnyVal::FullParams(full.clone()), ctx)?;
+            let compact = guard::guard("FullParams::into_compact", 0, || full.clone().into_compact())?;
+            ensure!(matches!(compact, dynafed::Params::Compact { .. }), "FullParams::into_compact did not return compact parameters");
+            ctor_roundtrip("FullParams::into_compact", &AnyVal::Params(compact.clone()), ctx)?;
+            let mut h = gen::gen_header(t);
+            h.ext = elements::BlockExtData::Dynafed {
+                current: compact,
+                proposed: if t.bool() { dynafed::Params::Full(full) } else { dynafed::Params::default() },
+                signblock_witness: if t.bool() { gen::gen_stack(t, false) } else { vec![] },
+            };
+            ctor_roundtrip("FullParams::into_compact(in header)", &AnyVal::Header(h), ctx)
+        }
+        14 => {
+            let mut h = gen::gen_header(t);
+            h.ext = guard::guard("BlockExtData::default", 0, elements::BlockExtData::default)?;
+            ctor_roundtrip("BlockExtData::default(in header)", &AnyVal::Header(h.clone()), ctx)?;
+            ctor_roundtrip("BlockExtData::default(in block)", &AnyVal::Block(Block { header: h, txdata: vec![gen::gen_tx(t, &small)] }), ctx)
+        }
+        15 => {
+            use elements::bitcoin::hashes::Hash as _;
+            let claim = {
+                let n = t.len(40, false);
+                t.bytes(n)
+            };
+            let txb = {
+                let n = t.len(80, true);
+                t.filler(n)
+            };
+            let mp = {
+                let n = 80 + t.len(70, true);
+                t.filler(n)
+            };
+            let pd = elements::PeginData {
+                outpoint: elements::bitcoin::OutPoint { txid: elements::bitcoin::Txid::from_byte_array(t.arr32()), vout: t.edgy_u32() },
+                value: t.edgy_u64(),
+                asset: asset_id,
+                genesis_hash: elements::bitcoin::BlockHash::from_byte_array(t.arr32()),
+                claim_script: &claim,
+                tx: &txb,
+                merkle_proof: &mp,
+                referenced_block: elements::bitcoin::BlockHash::from_byte_array(t.arr32()),
+            };
+            let w = guard::guard("PeginData::to_pegin_witness", 0, || pd.to_pegin_witness())?;
+            let mut tx = gen::gen_tx(t, &small);
+            let mut i = gen::gen_txin(t, &TxOpts { coinbase: false, ..small });
+            i.is_pegin = !(i.has_issuance() && i.previous_output.vout == 0x3fff_ffff);
+            i.witness.pegin_witness = w;
+            tx.input.push(i);
+            ctor_roundtrip("PeginData::to_pegin_witness(in tx)", &AnyVal::Tx(tx), ctx)
+        }
+        16 => {
+            let n = t.edgy_u32();
+            let lt = match t.below(4) {
+                0 => guard::guard("LockTime::from_height", 0, || LockTime::from_height(n % 500_000_000))?.ok(),
+                1 => guard::guard("LockTime::from_time", 0, || LockTime::from_time(n | 0x2000_0000))?.ok(),
+                2 => Some(guard::guard("LockTime::from_consensus", 0, || LockTime::from_consensus(n))?),
+                _ => Some(LockTime::ZERO),
+            };
+            let Some(lt) = lt else {
+                ctx.class("constructor:(returned Err)");
+                return Ok(());
+            };
+            ctor_roundtrip("LockTime::{from_height,from_time,from_consensus,ZERO}", &AnyVal::LockTime(lt), ctx)?;
+            let mut tx = gen::gen_tx(t, &small);
+            tx.lock_time = lt;
+            ctor_roundtrip("LockTime(in tx)", &AnyVal::Tx(tx), ctx)
+        }
+        17 => {
+            let n = t.edgy_u32();
+            let s = match t.below(6) {
+                0 => Sequence::from_height(n as u16),
+                1 => Sequence::from_512_second_intervals(n as u16),
+                2 => Sequence::from_consensus(n),
+                3 => Sequence::MAX,
+                4 => Sequence::ZERO,
+                _ => match guard::guard("Sequence::from_seconds_floor", 0, || Sequence::from_seconds_floor(n % (512 * 65536)))? {
+                    Ok(s) => s,
+                    Err(_) => {
+                        ctx.class("constructor:(returned Err)");
+                        return Ok(());
+                    }
+                },
+            };
+            ctor_roundtrip("Sequence::{from_height,from_512_second_intervals,from_consensus,MAX,ZERO,from_seconds_floor}", &AnyVal::Sequence(s), ctx)
+        }
+        18 | 19 => {
+            // PSET view of a transaction and back
+            let tx = gen::gen_tx(t, &TxOpts { big: false, wellformed: true, ..TxOpts::default() });
+            let r = guard::guard("from_tx/extract_tx", 0, || Pset::from_tx(tx).extract_tx())?;
+            match r {
+                Ok(x) => ctor_roundtrip("Pset::from_tx.extract_tx", &AnyVal::Tx(x), ctx),
+                Err(_) => {
+                    ctx.class("constructor:(returned Err)");
+                    Ok(())
+                }
+            }
+        }
+        20 => {
+            if !t.chance(40) {
+                ctx.class("constructor:(blinding skipped, 1 in 6 is run)");
+                return Ok(());
+            }
+            let case = gen::ct::gen_ct_case(t, false);
+            match super::c04::blind_case(&case) {
+                Ok((tx, _)) => ctor_roundtrip("Transaction::blind", &AnyVal::Tx(tx), ctx),
+                Err(_) => {
+                    // whether blinding succeeds is C04's question
+                    ctx.class("constructor:(returned Err)");
+                    Ok(())
+                }
+            }
+        }
+        _ => {
+            if !t.chance(40) {
+                ctx.class("constructor:(blinding skipped, 1 in 6 is run)");
+                return Ok(());
+            }
+            let case = gen::ct::gen_ct_case(t, true);
+            let mut rng = rand_chacha::ChaCha20Rng::from_seed(case.rng_seed);
+            let rk = p.pubkeys[t.below(p.pubkeys.len())];
+            let sec = case.secrets[t.below(case.secrets.len())];
+            let value = gen::ct::gen_amount(t);
+            let spk = gen::ct::std_script(t);
+            let outs: Vec<elements::TxOutSecrets> = Vec::new();
+            let refs: Vec<&elements::TxOutSecrets> = outs.iter().collect();
+            let r = guard::guard("TxOut::new_last_confidential", 0, || {
+                TxOut::new_last_confidential(&mut rng, secp, value, sec.asset, spk.clone(), rk, &case.secrets, &refs)
+            })?;
+            match r {
+                Ok((o, _, _, _)) => {
+                    let mut tx = gen::gen_tx(t, &small);
+                    tx.output.push(o);
+                    ctor_roundtrip("TxOut::new_last_confidential(in tx)", &AnyVal::Tx(tx), ctx)
+                }
+                Err(_) => {
+                    ctx.class("constructor:(returned Err)");
+                    Ok(())
+                }
+            }
+        }
+    }
+}
+
 /// the repository's hex vectors: reference encoder self-anchor + bijection + mutants
 fn vectors(idx: u64, seed: u64, ctx: &mut Ctx) -> R {
     let files = corpus_tx_files();
@@ -724,14 +1875,34 @@ pub fn property() -> Property {
         rule: "values: tape-generated canonical values of 20 consensus types (transactions weighted highest) over \
                coinbase/pegin/issuance/reissuance inputs, null/explicit/confidential fields, six witness fields, \
                proof/dynafed headers, lengths on both sides of the 0xfd/0x10000 varint boundaries; oracle: serialize == \
-               independent reference encoder byte for byte, reported length == bytes written, decode == value, partial \
-               decode with junk. mutants: 1-3 byte-level mutations (12 operators, layout-aware) of a valid encoding; \
-               oracle: accepted => re-encodes to exactly the input. noncanonical: the 8 rejection classes named by the \
-               property built on purpose, each must be Err. vectors: repository hex vectors + 60 mutants each. \
-               Non-trivial: value with >=1 structural feature (pegin/issuance/confidential/witness/dynafed/multi-byte \
-               varint); mutant differing from the valid encoding and longer than 8 bytes; distinct by encoded bytes.",
+               independent reference encoder byte for byte, reported length == bytes written, decode == value, the same \
+               through a reader with short reads, two encodings back to back in one reader (positions len and 2*len) and a \
+               writer with short writes, partial decode with junk, full decode rejects junk. big_values: the same oracle \
+               on what one 3000-byte tape cannot vary: headers / dynafed parameters whose scripts, witness items, extension \
+               entries and counts cross 0xfd / 0x10000; vector counts 7..0xfb, 0xfc..0xfe, 0x100/0x101/300 and 1000 / 5000 \
+               (inputs, outputs, block transactions) resp. up to 0x10001 / 100000 (witness stacks, extension space); \
+               elements of big vectors varied at every index (own sub-tape per element) plus big elements at tape-chosen \
+               indices; range proofs of exactly 0xfc..0x10001 bytes; byte vectors of 0x20000 / 1000000 / 3999999 / 4000000 \
+               bytes; junk suffix drawn before the value. mutants: 1-3 byte-level mutations (12 operators, layout-aware) of a \
+               valid encoding; oracle: accepted => re-encodes to exactly the input, reported length == bytes written, \
+               reference encoder renders the decoded value to the same bytes. big_mutants: the same on big_values' values \
+               with the mutation plan drawn before the value. noncanonical: the 8 rejection classes named by the property \
+               built on purpose on a stand-alone transaction, noncanonical_containers: the same classes on a transaction \
+               inside a block, unknown dynafed parameter tags, trailing bytes and non-minimal counts of blocks / headers / \
+               parameters; each must be Err. varint_boundaries (complete): 25 compact-size carriers x {0xfc, 0xfd, 0xffff, \
+               0x10000}: minimal form round-trips, every wider form rejected, plus 6 fixed non-minimal / unsatisfiable \
+               prefixes rejected at each carrier, plus 4 byte vectors of 3999999 / 4000000 bytes (the decoder's bound, inclusive) \
+               that must round-trip. constructors: values made by the library's constructors (confidential \
+               commitments, nonces, from_commitment, new_fee, defaults, null outpoint / issuance, FullParams::new / \
+               into_compact, BlockExtData::default, PeginData::to_pegin_witness, lock times, sequences, from_tx.extract_tx, \
+               Transaction::blind, new_last_confidential), alone and inside a container, same oracle as values. vectors: \
+               repository hex vectors + 60 mutants each. Non-trivial: value with >=1 structural feature \
+               (pegin/issuance/confidential/witness/dynafed/multi-byte varint, for big_values a count class above 8, a long \
+               header field or something non-default at index >= 60); mutant differing from the valid encoding and longer \
+               than 8 bytes; every boundary-table and constructor case; distinct by encoded bytes.",
         assumptions: &[
             "secp256k1-zkp renders curve points and proofs (serialize) correctly; the harness encoder is anchored on the repository's hex vectors",
+            "vector counts stay below the decoder's allocation bound (count * size_of::<T>() <= 4 000 000): hand-made values above it are not decoder / constructor values",
         ],
         subs: vec![
             Sub { name: "values", kind: Kind::Tape { max_len: 3000, quick: 240_000, thorough: 2_400_000, f: values } },
@@ -739,6 +1910,11 @@ pub fn property() -> Property {
             Sub { name: "noncanonical", kind: Kind::Tape { max_len: 1500, quick: 160_000, thorough: 1_200_000, f: noncanonical } },
             Sub { name: "vectors", kind: Kind::Index { count: |t| t.pick(15, 15 * 40), exhaustive: false, f: vectors } },
             Sub { name: "raw_bytes", kind: Kind::Tape { max_len: 300, quick: 160_000, thorough: 1_600_000, f: raw_bytes } },
+            Sub { name: "big_values", kind: Kind::Tape { max_len: 3000, quick: 16_000, thorough: 400_000, f: big_values } },
+            Sub { name: "big_mutants", kind: Kind::Tape { max_len: 3000, quick: 40_000, thorough: 1_000_000, f: big_mutants } },
+            Sub { name: "noncanonical_containers", kind: Kind::Tape { max_len: 1500, quick: 80_000, thorough: 800_000, f: noncanonical_containers } },
+            Sub { name: "varint_boundaries", kind: Kind::Index { count: |_| (VB_CARRIERS.len() * 5 + VB_MAX_ROWS) as u64, exhaustive: true, f: varint_boundaries } },
+            Sub { name: "constructors", kind: Kind::Tape { max_len: 2500, quick: 24_000, thorough: 600_000, f: constructors } },
         ],
         known: vec![],
     }
